@@ -54,4 +54,13 @@ LFlip(r) == CASE r = "LT" -> "GT" [] r = "GT" -> "LT" [] OTHER -> r
 \* Serial::add with its documented precondition (panics for n > 2^(2LW-1) - 1)
 LImplAdd(x, n) == IF LLess(n, LHalf) THEN [ok |-> LAdd(x, n)]
                   ELSE [panic |-> TRUE]
+
+\* Placement next to a reference time (Serial!Place): the reference is an era
+\* number plus a serial r, the placed time is an era number plus the serial ts
+LPlaceDefined(r, ts) == LSub(ts, r) # LHalf
+LPlaceEra(era, r, ts) ==
+  IF LLess(LSub(ts, r), LHalf)
+  THEN era + (IF LLess(ts, r) THEN 1 ELSE 0)     \* ahead of ref, maybe past the wrap
+  ELSE era - (IF LLess(r, ts) THEN 1 ELSE 0)     \* behind ref, maybe before the wrap
+LPlaceConstrained(era, r, ts) == LPlaceDefined(r, ts) /\ LPlaceEra(era, r, ts) >= 0
 =============================================================================
